@@ -334,6 +334,128 @@ func (w *lmWorker) explore(sk, uuid string, lab *lmm.Labels) {
 	}
 }
 
+// lmSimulate lets TLC generate random behaviours (tlc -simulate) of the labelmap specification on a
+// larger geometry and replays each behaviour along a chain of versions (commit + new version
+// every few operations), comparing the full read set after every step.
+func lmSimulate(c *Ctx, run, run12 *ev.Run, g *lmm.Geom, initSV []uint64, num, depth int, edges *int64) (int, int64) {
+	files := map[string][]byte{"LabelGeom.tla": []byte(g.TLAConstantsDownres(initSV, nil, nil))}
+	files["gen_lm_sim.cfg"] = []byte(lmConfig(g, maxU64(initSV), depth, true, true))
+	r := c.RunTLC(tlc.Opts{Module: "Labelmap_mc", Config: "gen_lm_sim.cfg", Files: files, Workers: 1, Simulate: fmt.Sprintf("num=%d", num), Depth: depth + 1,
+		Seed: c.Seed, Timeout: 20 * time.Minute})
+	obsOf := map[string]lmm.Obs{}
+	type rawEdge struct {
+		S lmm.Key `json:"s"`
+		L lmm.Op  `json:"l"`
+		T lmm.Key `json:"t"`
+	}
+	var behaviours [][]rawEdge
+	var initKey *lmm.Key
+	var initObs lmm.Obs
+	// In simulation mode TLC evaluates Next for every successor of the current state (printing
+	// one edge line each) and then picks one; the invariant line that follows tells which.
+	pending := map[string]rawEdge{}
+	cur := ""
+	PrintedJSON(r.Output, func(raw []byte) {
+		var probe struct {
+			K   *lmm.Key `json:"k"`
+			D   int      `json:"d"`
+			Obs lmm.Obs  `json:"obs"`
+		}
+		if json.Unmarshal(raw, &probe) == nil && probe.K != nil {
+			k := probe.K.Canon()
+			obsOf[k] = probe.Obs
+			if probe.D == 0 {
+				if initKey == nil {
+					initKey = probe.K
+					initObs = probe.Obs
+				}
+				behaviours = append(behaviours, nil)
+				cur = k
+				pending = map[string]rawEdge{}
+				return
+			}
+			if e, ok := pending[cur+"=>"+k]; ok && len(behaviours) > 0 {
+				behaviours[len(behaviours)-1] = append(behaviours[len(behaviours)-1], e)
+			}
+			cur = k
+			pending = map[string]rawEdge{}
+			return
+		}
+		var e rawEdge
+		if json.Unmarshal(raw, &e) == nil && e.L.Op != "" {
+			pending[e.S.Canon()+"=>"+e.T.Canon()] = e
+		}
+	})
+	if initKey == nil || len(behaviours) == 0 {
+		infra("labelmap simulation emitted nothing: %s", r.Tail(1500))
+	}
+	var steps int64
+	parallel(len(behaviours), 8, func(_, bi int) {
+		w := &lmWorker{c: c, run: run, run12: run12, gr: &lmGraph{states: map[string]*lmState{initKey.Canon(): {key: *initKey, obs: initObs, parent: -1}}, init: initKey.Canon()},
+			g: g, initSV: initSV, gname: fmt.Sprintf("seeded%d/sim", g.R), cfg: map[string]string{}, edges: edges, restarts: new(int64)}
+		cur, lab := w.start()
+		defer c.DropNode(w.n)
+		cur = w.branch(cur)
+		var path []lmm.Op
+		for i, e := range behaviours[bi] {
+			ob, ok := obsOf[e.T.Canon()]
+			if !ok {
+				break
+			}
+			if e.L.Op == "overwrite" {
+				e.L.NewSV = e.T.SV
+				e.L.OldSV = e.S.SV
+			}
+			status, probs, err := w.in.Apply(cur, e.L, lab)
+			must(err, "apply")
+			atomic.AddInt64(edges, 1)
+			atomic.AddInt64(&steps, 1)
+			path = append(path, e.L)
+			for _, p := range probs {
+				run12.Violation("c12", c08Divergence{Kind: "identifier", Geometry: w.gname, InitSV: initSV, Path: path, Op: e.L, Diffs: []string{p}})
+			}
+			if status != 200 {
+				run.Violation("c08", c08Divergence{Kind: "valid-operation-refused", Geometry: w.gname, InitSV: initSV, Path: path, Op: e.L, Status: status, Labels: lab.ToReal})
+				return
+			}
+			must(w.in.Idle(), "idle")
+			d, err := w.in.Compare(cur, ob, lab, lmm.Full)
+			must(err, "compare")
+			if len(d) > 0 && e.L.Op == "overwrite" {
+				deadline := time.Now().Add(10 * time.Second)
+				for len(d) > 0 && time.Now().Before(deadline) {
+					time.Sleep(5 * time.Millisecond)
+					d, err = w.in.Compare(cur, ob, lab, lmm.Full)
+					must(err, "compare")
+				}
+			}
+			if len(d) > 0 {
+				if len(d) > 12 {
+					d = d[:12]
+				}
+				run.Violation("c08", c08Divergence{Kind: "state-mismatch-in-simulated-behaviour", Geometry: w.gname, InitSV: initSV, Path: path, Op: e.L, Diffs: d, Labels: lab.ToReal})
+				return
+			}
+			run.Eval(fmt.Sprintf("sim|%d|%d", bi, i))
+			if i%5 == 4 {
+				// continue in a child version: everything must be inherited unchanged
+				w.commit(cur)
+				if i%10 == 9 {
+					must(w.n.Restart(i%20 == 9), "restart")
+				}
+				cur = w.branch(cur)
+				d, err := w.in.Compare(cur, ob, lab, lmm.Light)
+				must(err, "compare child")
+				if len(d) > 0 {
+					run.Violation("c08", c08Divergence{Kind: "child-version-does-not-inherit", Geometry: w.gname, InitSV: initSV, Path: path, Op: e.L, Diffs: d, Labels: lab.ToReal})
+					return
+				}
+			}
+		}
+	})
+	return len(behaviours), steps
+}
+
 func checkC08(c *Ctx) int {
 	run := ev.NewRun("C08", c.Tier, "model_checking")
 	run12 := ev.NewRun("C12", c.Tier, "model_checking")
@@ -349,15 +471,6 @@ func checkC08(c *Ctx) int {
 		{"small6/A", small, []uint64{1, 1, 2, 2, 3, 0}, c.pick(3, 4)},
 		{"small6/B", small, []uint64{7, 7, 7, 4, 4, 9}, c.pick(1, 2)}, // with mutating voxel writes (fresh / present / zero label)
 		{"small6/C", small, []uint64{5, 5, 6, 6, 6, 2}, c.pick(2, 3)},
-	}
-	if c.thorough() {
-		big := lmm.NewGeom(c.Seed, false)
-		sv := make([]uint64, big.R)
-		for i := range sv {
-			sv[i] = uint64(1 + (i*7+int(c.Seed))%4)
-		}
-		sv[big.R-1] = 0
-		layouts = append(layouts, layout{"seeded12", big, sv, 2})
 	}
 	var states, trans, edges, restarts int64
 	for _, lo := range layouts {
@@ -394,6 +507,16 @@ func checkC08(c *Ctx) int {
 		run.Sample(map[string]interface{}{"layout": lo.name, "initial_supervoxels": lo.initSV, "states": len(gr.states), "transitions": len(gr.edges),
 			"example_transition": gr.edges[len(gr.edges)/2].L})
 	}
+	// simulated long behaviours on the larger seeded geometry
+	big := lmm.NewGeom(c.Seed, false)
+	bsv := make([]uint64, big.R)
+	for i := range bsv {
+		bsv[i] = uint64(1 + (i*7+int(c.Seed))%5)
+	}
+	bsv[big.R-1] = 0
+	nb, nsteps := lmSimulate(c, run, run12, big, bsv, c.pick(8, 120), c.pick(12, 25), &edges)
+	run.Set("simulated_behaviours", nb)
+	run.Set("simulated_steps_replayed", nsteps)
 	run.Set("states", states)
 	run.Set("transitions", trans)
 	run.Set("traces_validated_against_impl", edges)
